@@ -167,6 +167,32 @@ def write_wrapper_shape():
     return 'bool', cbool(ok)
 
 
+def wrapper_body_under_access_lock():
+    """new_wfunc consists of ONE statement `with self.accessLock:`; validation, the check loop, the driver call, the
+    read-back validation and announceUpdate are all inside it, the lock is not mentioned anywhere else in the wrapper,
+    and Module.__init__ creates it as a threading.RLock per instance (obligation of C04_limits_current_at_driver_call:
+    a limit cannot move between the limit check and the driver call)"""
+    _, f = _wfunc()
+    body = [s for s in f.body
+            if not (isinstance(s, ast.Expr) and isinstance(s.value, ast.Constant) and isinstance(s.value.value, str))]
+    ok = len(body) == 1 and isinstance(body[0], ast.With) and len(body[0].items) == 1
+    if ok:
+        item = body[0].items[0]
+        ok = src(item.context_expr) == 'self.accessLock' and item.optional_vars is None
+    if ok:
+        inner = body[0]
+        calls = [src(c.func) for st in inner.body for c in walk_type(st, ast.Call)]
+        ok = all(n in calls for n in ('validate', 'c', 'wfunc', 'self.announceUpdate'))
+        # nothing is deferred to a nested function / lambda / other thread
+        ok = ok and not any(walk_type(st, (ast.FunctionDef, ast.Lambda, ast.AsyncFunctionDef)) for st in inner.body)
+        mentions = [n for n in walk_type(f, ast.Attribute) if n.attr == 'accessLock']
+        ok = ok and len(mentions) == 1
+    init = find_func(find_class(parse(MODB), 'Module'), '__init__')
+    assigns = [src(st) for st in walk_type(init, ast.Assign) if 'accessLock' in src(st)]
+    ok = ok and assigns == ['self.accessLock = threading.RLock()']
+    return 'bool', cbool(ok)
+
+
 def check_funcs_from_mro():
     """cfuncs = all check_<p> entries of the class dicts along cls.__mro__; generated lambda calls checkLimits for the
     postfixes _limits, _min, _max when the defining class has no check_<p> yet"""
@@ -283,7 +309,7 @@ def error_class_names():
 
 
 FACTS = [set_parameter_order, execute_command_order, handle_change_shape, handle_do_shape, command_do_shape,
-         write_wrapper_shape, check_funcs_from_mro, check_limits_shape, export_map_shape, announce_store_then_emit,
+         write_wrapper_shape, wrapper_body_under_access_lock, check_funcs_from_mro, check_limits_shape, export_map_shape, announce_store_then_emit,
          handler_error_mapping, error_class_names]
 
 FINGERPRINTS = {
